@@ -46,6 +46,15 @@ func loadKnown() (*KnownFile, error) {
 	return kf, nil
 }
 
+// unreachableOK: returns that are known dead code under the trusted contracts (name -> reason).
+func unreachableOK() map[string]string {
+	m := map[string]string{}
+	if b, err := os.ReadFile(filepath.Join(verifDir, "tools", "unreachable_ok.json")); err == nil {
+		json.Unmarshal(b, &m)
+	}
+	return m
+}
+
 func hasLabel(ls []string, p string) bool {
 	for _, l := range ls {
 		if l == p {
@@ -294,7 +303,12 @@ func runCheck(prop, tier string, seed int, timeout time.Duration, writeBaseline,
 					nVacOK++
 				case "failed":
 					if strings.Contains(o.Kind, "vacuity.return") {
-						// a return that the contracts make unreachable (dead code): reported, not an error
+						// a return that the contracts make unreachable: accepted only if it is a known piece of dead
+						// code (tools/unreachable_ok.json says why); otherwise the assumptions on that path are
+						// contradictory and everything "proved" there is vacuous — an engine error, never a pass
+						if _, ok := unreachableOK()[o.Name]; !ok {
+							return engineFail(prop, "vacuity guard: %s — the return point is unreachable under the contracts (contradictory assumptions?); if it is dead code, list it in tools/unreachable_ok.json with the reason", o.Name)
+						}
 						nUnreach++
 						unreachable = append(unreachable, o.Name)
 						continue
